@@ -264,7 +264,7 @@ func propC06() *Prop {
 		ID: "C06", Title: "Client affinity (ip_hash) and minimal remapping (ip_hash_consistent)",
 		Jobs: func(tier string) []*sym.Job {
 			var js []*sym.Job
-			add := func(j *sym.Job) { j.RandomModels = 1000; j.LoopBound = 64; js = append(js, j) }
+			add := func(j *sym.Job) { j.RandomModels = 3000; j.LoopBound = 64; j.FeasTimeout = 5 * time.Second; js = append(js, j) }
 			for n := int64(1); n <= tierPick(tier, 4, 8); n++ {
 				add(job(fmt.Sprintf("C06a/jumpHash[all 2^32 hashes,n=%d->%d]", n, n+1), "loadbalancer", "VerifC06Jump", n))
 			}
